@@ -1024,11 +1024,21 @@ def case_term(steps: list[dict]) -> str:
     return f"({ops},\n   {exp})"
 
 
+def tie_cfg() -> str:
+    """The configuration the tie runs the model with: `current_cfg` of Model.v.  For validating a proposed fix on a
+    scratch worktree before it lands (development only) VERIF_C01_FIXED=SIOInsert,SIOExtend,... overrides sites."""
+    import os
+    ov = [x for x in os.environ.get("VERIF_C01_FIXED", "").split(",") if x]
+    if not ov:
+        return "current_cfg"
+    return "(fun s => match s with " + " | ".join(ov) + " => true | _ => current_cfg s end)"
+
+
 def case_file(histories: list[list[dict]]) -> str:
     """Prints, per history, (1 + first disagreeing step | 0, 1 + first step hitting a defect site | 0)."""
     return (CASE_HEADER + "Definition cases : list (list op * list exp_step) :=\n  "
             + clist(case_term(h) for h in histories).replace("; ([", ";\n  ([") + ".\n"
-            "Eval vm_compute in (map (verdict current_cfg) cases).\n")
+            f"Eval vm_compute in (map (verdict {tie_cfg()}) cases).\n")
 
 
 def parse_verdicts(out: str) -> list[tuple[int | None, int | None]]:
@@ -1240,10 +1250,10 @@ def run_check(ck, which: str) -> None:  # noqa: C901, PLR0912, PLR0915
     for ops in load_corpus("C01") + load_corpus("C06"):
         hists.append(run_history(ops)["steps"])
         tags.append("corpus")
-    n_rand = 300 if not ck.thorough else 6000
+    n_rand = 300 if not ck.thorough else 3000
     for i in range(n_rand):
         g = Gen(rng, use_functions=(i % 3 == 0), site_rate=(0.04 if i % 4 else 0.15))
-        hists.append(g.history(rng.randrange(5, 61 if not ck.thorough else 301))["steps"])
+        hists.append(g.history(rng.randrange(5, 61 if not ck.thorough else 151))["steps"])
         tags.append("random")
     ex_len = 2 if not ck.thorough else 3
     n_ex = 0
@@ -1270,7 +1280,10 @@ def run_check(ck, which: str) -> None:  # noqa: C901, PLR0912, PLR0915
 
     # ---- 2. the model inside Coq: outcome + observation hash after every op, first defect-site hit
     chunks = [hists[i:i + 300] for i in range(0, len(hists), 300)]
-    results = ck.coq_eval_many([(f"cases_{i}", case_file(c)) for i, c in enumerate(chunks)], timeout=900)
+    import concurrent.futures as cf
+    with cf.ThreadPoolExecutor(max_workers=4) as ex:      # at most 4 coqc at a time
+        futs = [ex.submit(ck.coq_eval, case_file(c), f"cases_{i}", 900) for i, c in enumerate(chunks)]
+        results = [f.result() for f in futs]
     verdicts: list[tuple[int | None, int | None]] = []
     for (rc, out), c in zip(results, chunks):
         if rc != 0:
